@@ -12,7 +12,7 @@ from common import Ctx, MachineryError, pmap
 IMPL = dict(Shared=False, SetOnAllPaths=True, ClearOnError=True, CopyOnConstruct=True)
 INTENDED = dict(Shared=True, SetOnAllPaths=True, ClearOnError=True, CopyOnConstruct=True)
 DOCS = ["plain", "colA", "colB", "multi", "fig", "fail", "share2", "share3", "paged", "pagedfn", "pagedhdr", "multi13",
-        "share1", "sharew2", "sharew3", "brdA", "brdB", "cyc", "pagedm1", "pagedm2", "pgshare", "pgfail"]
+        "share1", "sharew2", "sharew3", "brdA", "brdB", "cyc", "pagedm1", "pagedm2", "pgshare", "pgfail", "subA", "subB", "sublpb", "grpA", "grpB"]
 JUDGE = ["C14_Pure", "C14_Repeatable", "C14_DfUnchanged", "C14_Outcome", "C14_AllRan"]
 PLAN = {"quick": dict(exhaustive=1, sim_len=4, sim_num=900, model_len=2),
         "thorough": dict(exhaustive=2, sim_len=4, sim_num=16000, model_len=2)}
